@@ -1178,7 +1178,7 @@ class Interp:
 NONNEG_TERMS = set()
 # one run (all its paths together) may take this many times the per-path step budget; the largest run on the
 # unchanged tree is printed with GCV_DEBUG_STEPS=1 (measured: see DESIGN.md §10.3, fourth session)
-TOTAL_STEPS_FACTOR = 150
+TOTAL_STEPS_FACTOR = 5
 MAX_TOTAL_SEEN = [0]
 if os.environ.get("GCV_DEBUG_STEPS"):
     import atexit
